@@ -14,8 +14,8 @@ one() {
   if [ -n "${MUT_SCRATCH:-}" ]; then
     T=/tmp/scratch/r_$n; mkdir -p /tmp/scratch; rsync -a --delete --exclude .git /repo/ $T/
     (cd $T && patch -p1 -s < /verif/$d/patch.diff) || { echo "$n: patch does not apply"; rm -rf $T; return; }
-    VERIF_DIR=/verif VERIF_REPO=$T timeout 2400 ./bin/vengine -prop $p -tier quick > out/regress_$n.log 2>&1; rc=$?
-    rm -rf $T
+    VERIF_OUT=/tmp/scratch/o_$n VERIF_DIR=/verif VERIF_REPO=$T timeout 2400 ./bin/vengine -prop $p -tier quick > out/regress_$n.log 2>&1; rc=$?
+    rm -rf $T /tmp/scratch/o_$n
   else
     git -C /repo apply /verif/$d/patch.diff 2>/dev/null || { echo "$n: patch does not apply"; return; }
     timeout 2400 ./check $p quick > out/regress_$n.log 2>&1; rc=$?
